@@ -104,7 +104,8 @@ def worker(job):
 
 
 def functions_of(cs, prop):
-    fns = [k for k, c in cs.funcs.items() if prop in c.props and not c.assumed and not c.is_iface and not c.inline]
+    fns = [k for k, c in cs.funcs.items() if prop in c.props and not c.assumed and not c.is_iface and not c.inline
+           and not (_TIER == 'quick' and c.opts.get('tier') == 'thorough')]
     inl = [k for k, c in cs.funcs.items() if c.inline]
     return sorted(fns), sorted(inl)
 
